@@ -1,9 +1,9 @@
-use alloc::string::String;
+use alloc::{string::String, vec::Vec};
 
 use crate::{
     dcps::{
         dcps_domain_participant::{
-            participant_entity::DcpsDomainParticipant,
+            discovery_methods::is_partition_matched, participant_entity::DcpsDomainParticipant,
             user_defined_data_writer::UserDefinedDataWriter,
         },
         listeners::{
@@ -225,11 +225,12 @@ impl DcpsDomainParticipant {
         Ok(())
     }
 
-    #[tracing::instrument(skip(self))]
+    #[tracing::instrument(skip(self, runtime))]
     pub fn set_publisher_qos(
         &mut self,
         publisher_handle: &InstanceHandle,
         qos: QosKind<PublisherQos>,
+        runtime: &impl DdsRuntime,
     ) -> DdsResult<()> {
         let qos = match qos {
             QosKind::Default => self.domain_participant.default_publisher_qos.clone(),
@@ -244,7 +245,34 @@ impl DcpsDomainParticipant {
             return Err(DdsError::AlreadyDeleted);
         };
 
+        if publisher.enabled {
+            publisher.qos.check_immutability(&qos)?;
+        }
         publisher.qos = qos;
+
+        // Readers that were matched through the previous partition are not matched anymore
+        for data_writer in &mut publisher.data_writer_list {
+            let unmatched_subscription_list: Vec<_> = data_writer
+                .matched_subscription_list
+                .iter()
+                .filter(|s| !is_partition_matched(&publisher.qos.partition, &s.partition))
+                .map(|s| InstanceHandle::new(s.key().value))
+                .collect();
+            for subscription_handle in &unmatched_subscription_list {
+                data_writer.remove_matched_subscription(subscription_handle);
+            }
+        }
+
+        // The publisher QoS is part of the discovery data of every contained writer
+        let enabled_data_writer_handle_list: Vec<_> = publisher
+            .data_writer_list
+            .iter()
+            .filter(|dw| dw.enabled)
+            .map(|dw| dw.instance_handle)
+            .collect();
+        for data_writer_handle in &enabled_data_writer_handle_list {
+            self.announce_data_writer(publisher_handle, data_writer_handle, runtime);
+        }
         Ok(())
     }
 
